@@ -29,6 +29,8 @@ def main():
         pkgdir = os.path.dirname(files[0])
         m = re.search(r"^package (\w+)", open(demo).read(), flags=re.M)
         demopkg = m.group(1) if m else ""
+        race = "-race " if os.environ.get("SEED_RACE") or "-race" in open(os.path.join(src, "meta.txt")).read() and "skip" in open(demo).read().lower() and "race" in open(demo).read().lower() else ""
+        res["demo_needs_race"] = bool(race)
         # external test package or a different package: look for a directory whose package name matches
         cand = pkgdir
         for f in files:
@@ -38,7 +40,7 @@ def main():
         res["demo_dir"] = cand
         # 1. unchanged tree: demo passes
         shutil.copy(demo, os.path.join(wt, cand, "zz_seed_demo_test.go"))
-        rc0, out0 = sh(f"go test -mod=mod -vet=off -count=1 -run . ./{cand}/", cwd=wt)
+        rc0, out0 = sh(f"go test {race}-mod=mod -vet=off -count=1 -run . ./{cand}/", cwd=wt)
         res["demo_passes_unchanged"] = rc0 == 0
         # 2. with the change: compiles, existing tests pass (without the demo), demo fails
         rc, out = sh(f"git apply {patch}", cwd=wt)
@@ -58,7 +60,7 @@ def main():
         rct, outt = sh("go test -mod=mod -vet=off -count=1 ./...", cwd=wt)
         res["existing_tests_pass"] = rct == 0
         shutil.copy(demo, os.path.join(wt, cand, "zz_seed_demo_test.go"))
-        rc1, out1 = sh(f"go test -mod=mod -vet=off -count=1 -run . ./{cand}/", cwd=wt, timeout=600)
+        rc1, out1 = sh(f"go test {race}-mod=mod -vet=off -count=1 -run . ./{cand}/", cwd=wt, timeout=600)
         res["demo_fails_with_change"] = rc1 != 0
         res["demo_output_with_change"] = out1[-800:]
     finally:
